@@ -350,6 +350,26 @@ func properties() map[string]*PropertyDef {
 		LevelNote:   "the bounded part is labelled bounded in the evidence and is not counted among the discharged obligations",
 		Technique:   "contract-based deductive verification (govc) for the hostname pairs; bounded exhaustive differential test on the real code for the IP pairs (stand-in)",
 	})
+	ps = append(ps, &PropertyDef{
+		ID:       "C13",
+		Patterns: []string{"./stringutil"},
+		Funcs:    []string{"stringutil.SplitTrimmed", "stringutil.ContainsFold"},
+		Lemmas:   []string{"keptZero", "keptStep", "keptBounds"},
+		Kinds:    map[string]bool{"ensures": true, "invariant": true, "requires": true, "frame": true, "bounds": true, "nil": true, "variant": true, "lemma": true},
+		NeedsClauses: map[string][]string{
+			"stringutil.SplitTrimmed": {"non_nil", "empty_input", "count", "pieces_in_order", "count_so_far", "placed", "unread_intact"},
+		},
+		Bounded: c13Bounded,
+		Assumptions: []string{
+			"PARTIAL CLAIM. Proved for SplitTrimmed (all inputs): with t = TrimSpace(str) and the pieces of strings.Split(t, sep) as abstract values, the result is non-nil, empty when t is empty, and otherwise holds exactly the pieces whose trimmed form is non-empty, trimmed, each at the index equal to the number of kept pieces before it (hence in order, no piece lost or duplicated); the in-place reuse of the split slice never overwrites a piece that has not been read yet, and clearing the tail does not touch the result",
+			"BOUNDED, not proved: ContainsFold against the reference definition (Unicode simple case folding tables are not expressible in the contracts); see coverage.bounded_parts; termination and index safety of its loop are proved (C01)",
+			"assumed: strings.TrimSpace and strings.Split are deterministic functions of their arguments (how a string is cut into pieces is not modelled)",
+		},
+		Explanation: "SplitTrimmed against a rank function over the abstract pieces (recursive spec function hidden behind step lemmas); ContainsFold by a bounded differential check on the real code",
+		LevelText:   "proof for SplitTrimmed (all inputs, relative to abstract Split/TrimSpace); bounded differential check for ContainsFold",
+		LevelNote:   "the bounded part is labelled bounded in the evidence and is not counted among the discharged obligations",
+		Technique:   "contract-based deductive verification (govc) for SplitTrimmed; bounded exhaustive differential test on the real code for ContainsFold (stand-in)",
+	})
 	out := map[string]*PropertyDef{}
 	for _, p := range ps {
 		out[p.ID] = p
